@@ -1,6 +1,7 @@
 import PgFdr.Json
 import PgFdr.Model.C12
 import PgFdr.Model.CliQuant
+import PgFdr.Model.C12Columns
 namespace PgFdr.Driver
 open Lean PgFdr
 
@@ -59,6 +60,27 @@ def ofGroup (g : C12.GroupOut) : Json :=
     ("nPeps", ofList ofNat g.nPeps), ("ibaqTotal", ofRat g.ibaqTotal), ("ibaq", ofList ofRat g.ibaq),
     ("tmt", ofList ofRat g.tmt), ("evidenceIds", ofList ofInt g.evidenceIds)]
 
+/-- a digest map `[[peptide, [protein…]]…]` in dict order -/
+def jdmap (j : Json) : R C10.DMap :=
+  jlist (fun e => do
+    match e with
+    | .arr #[p, ps] => pure ((← jstr p), (← jstrs ps))
+    | _ => .error s!"expected [peptide, proteins], got {e.compress}") j
+
+/-- the flat row list cut into files of the given sizes (what is left over forms a last file) -/
+def splitSizes {α : Type} : List Nat → List α → List (List α)
+  | [], [] => []
+  | [], l => [l]
+  | n :: ns, l => l.take n :: splitSizes ns (l.drop n)
+
+def ofCell : C12.Cell → Json
+  | .nat n => ofNat n
+  | .str s => .str s
+  | .rat q => ofRat q
+  | .nats l => obj [("join", ofList ofNat l)]
+  | .ints l => obj [("join", ofList ofInt l)]
+  | .foreign _ => .null
+
 end C12io
 
 open C12io in
@@ -71,25 +93,48 @@ open C12io in
     list `cells_under_named_headers` / `design_cells_under_named_headers` speak about; a string = the refusal, e.g.
     `dup_header`) — or `{"err": e}` with `e` one of
     `bad_silac_channels`, `silac_index_out_of_range`, `tmt_shape_mismatch` (rows of different SILAC / reporter layouts),
-    `design_duplicate_name`, `raw_file_not_in_design` -/
+    `design_duplicate_name`, `raw_file_not_in_design`.
+    Optional (`Model/C12Columns.lean`): `"files":[n0,n1,…]` (rows per evidence file, in order), `"remap":true` and
+    `"maps":[[[peptide,[protein…]]…]…]` — the run of a remapping method: the protein list of every row is the digest's
+    list of its stripped modified sequence (`C12.evidenceRows` = `C10.removeMods` + `C10.digestLookup`, map of the file's
+    position), the `prot` field is ignored; `"skipLfq":false` — the writer with the MaxLFQ generator: `headers` then
+    contains the `LFQ Intensity …` names; `cells` = `extraColumns` of every written row in the writer's order
+    (`C12.runCells`), `null` for the cells of the generators C12 does not speak about (annotation, MaxLFQ, coverage),
+    `{"join":[…]}` for the `;`-joined cells -/
 def handleQuant (j : Json) : R Json := do
   let rows ← jlist jrow (← jget j "rows")
   let groups ← jgroups (← jget j "groups")
   let level ← jrat (← jget j "level")
   let ibaq ← jlist jibaq (← jget j "ibaq")
+  let skipLfq ← match jgetOpt j "skipLfq" with
+    | some b => jbool b
+    | none => pure true
+  let remap ← match jgetOpt j "remap" with
+    | some b => jbool b
+    | none => pure false
+  let maps ← match jgetOpt j "maps" with
+    | some m => jlist jdmap m
+    | none => pure []
+  let sizes ← match jgetOpt j "files" with
+    | some s => jlist jnat s
+    | none => pure [rows.length]
   let run ← match jgetOpt j "design" with
-    | none | some .null => pure (C12.quantify rows groups level ibaq)
+    | none | some .null => pure (C12.quantifyFiles remap maps (splitSizes sizes rows) groups level ibaq)
     | some d => do
       let design ← jlist jdesign d
       let raws ← jlist jraw (← jget j "rows")
-      pure (C12.quantifyDesign design (raws.zip rows) groups level ibaq)
+      pure (C12.quantifyFilesDesign design remap maps (splitSizes sizes (raws.zip rows)) groups level ibaq)
   match run with
   | .error e => pure (ofErr e)
   | .ok o =>
+    let S := match C12.silacChannels o.nSilac with
+      | .ok S => S
+      | .error _ => 0
     pure (obj [("experiments", ofStrs o.experiments), ("nSilac", ofInt o.nSilac), ("nTmt", ofInt o.nTmt),
       ("peps", ofList ofPep o.peps), ("cutoff", ofRat o.cutoff),
       ("attached", ofList (ofList ofRow) o.attached), ("groups", ofList ofGroup o.groups),
-      ("headers", match CliQuant.quantHeaders (CliQuant.ctxOf o) with
+      ("cells", ofList (ofList ofCell) (C12.runCells skipLfq S o ibaq)),
+      ("headers", match C12.writerHeaders skipLfq (CliQuant.ctxOf o) with
         | .ok hs => ofStrs hs
         | .error e => .str e)])
 
